@@ -353,7 +353,7 @@ def gen_recipes(ctx):
     R.append([dict(E, out="a.cool", widths=[[7]], chunks=[[[0, 0, 4]]])])
     R.append([dict(E, out="a.cool", symm=False, chunks=[[[i, j, 1 + i + j] for i in range(4) for j in range(4)]])])
     # --- singles
-    for _ in range(70 * mul):
+    for _ in range(45 * mul):
         R.append([G.gen_create(rng, "a.cool")])
     for _ in range(10 * mul):
         R.append([G.gen_create(rng, "a.cool", group=rng.choice(["x", "x/y", "resolutions/5"]), big=True)])
@@ -391,6 +391,37 @@ def gen_recipes(ctx):
                 st["symm"] = True
                 st["chunks"] = [[r for r in ch if r[0] <= r[1]] for ch in st["chunks"]]
             R.append([with_opts(st, **opts)])
+    # --- every count dtype the writer accepts (signed/unsigned 8..64 bit, float32/64 with fractional, negative and
+    #     large values) through every producer that goes through write_pixels: the schema invariants (nnz, sum,
+    #     offsets, order ...) are dtype independent
+    kinds = list(G.COUNT_KINDS)
+    for ki, kind in enumerate(kinds):
+        wide = kind not in ("int8", "uint8")
+        for inp in ("frame", "dict", "ordered", "unordered"):
+            R.append([G.retype(rng, G.gen_create(rng, "t.cool", kind=inp, shape=rng.choice(["sparse", "dense", "gaprows", "row"])), kind)])
+        # extra value column next to a typed count column
+        st = G.retype(rng, G.gen_create(rng, "t.cool", kind=rng.choice(["frame", "ordered", "unordered"]), shape="sparse"), kind)
+        st["opts"] = {**st["opts"], "columns": ["count", "w"], "dtypes": {**st["opts"]["dtypes"], "w": "int64"}}
+        R.append([st])
+        # create x2 -> merge (-> coarsen -> zoomify for the kinds whose sums cannot leave the dtype)
+        widths = G.rand_widths(rng, fixed=True, maxbins=6)
+        b = fixed_size(widths) or 1
+        symm = ki % 2 == 0
+        s1 = G.retype(rng, G.gen_create(rng, "x.cool", widths=widths, symm=symm, kind="frame", shape="sparse"), kind)
+        s2 = G.retype(rng, G.gen_create(rng, "y.cool", widths=widths, symm=symm, kind=rng.choice(["ordered", "unordered"]), shape="sparse"), kind)
+        steps = [s1, s2, {"op": "merge", "out": "m.cool", "group": "", "inputs": [["x.cool", ""], ["y.cool", ""]], "mergebuf": rng.choice([1, 3, 100])}]
+        if wide:
+            steps.append({"op": "coarsen", "out": "c.cool", "group": "", "in": ["m.cool", ""], "factor": 2, "chunksize": rng.choice([1, 3, 100])})
+            steps.append({"op": "zoomify", "out": "z.mcool", "inputs": [["m.cool", ""]], "resolutions": [b, 2 * b, 4 * b],
+                          "base_resolutions": [b], "chunksize": rng.choice([2, 100])})
+        R.append(steps)
+        # one single-cell file per kind
+        n = G.nbins_of(widths)
+        cells = {name: G.rand_records(rng, sorted(G.rand_cells(rng, n, symm, "sparse"))) for name in ("c1", "c2")}
+        R.append([G.retype(rng, {"op": "scool", "out": "t.scool", "widths": widths, "symm": symm, "cells": cells}, kind)])
+    # text loader: fractional counts with --count-as-float, negative integer counts with the default dtype
+    for kind in ("float64", "float64", "float32", "int16"):
+        R.append([G.retype(rng, G.gen_load(rng, "l.cool"), kind)])
     # unordered-only knobs
     for opts in ({"temp_dir": "-"}, {"delete_temp": False}):
         R.append([with_opts(G.gen_create(rng, "o.cool", kind="unordered"), **opts)])
@@ -546,6 +577,8 @@ def create_model_expr(step):
         # validate_pixels sorts every chunk by (bin1_id, bin2_id) before it is written
         chunks = [sorted(ch, key=lambda r: (r[0], r[1])) for ch in chunks]
     if str(((step.get("opts") or {}).get("dtypes") or {}).get("count", "")).startswith("float"):
+        return None
+    if any(isinstance(r[2], float) for ch in chunks for r in ch):
         return None
     if sum(len(ch) for ch in chunks) > 400:
         return None
